@@ -67,8 +67,12 @@ fn run<T: Flt>(src: &mut Src, obs: &mut Obs) -> Result<(), Fail> {
     shape.extend_from_slice(&trailing);
     let dd = if src.chance(1, 4) { DDim::Dyn } else { DDim::of_rank(shape.len()) };
     let extrapolate = src.chance(1, 4);
-    let xo = if class == AxisClass::Index { None } else { Some(arr_1::<T>(&x)) };
-    let interp = match build1::<T>(xo, arr_d::<T>(&shape, &data), dd, &Strat1::Linear { extrapolate }) {
+    // memory layouts of the axis and of the data are varied too (standard in 3 of 4 cases each)
+    let (xlay, dlay) = (crate::layout::pick_lay(src), crate::layout::pick_lay(src));
+    obs.class(format!("xlayout:{}", xlay.0.name()));
+    obs.class(format!("datalayout:{}", dlay.0.name()));
+    let xo = if class == AxisClass::Index { None } else { Some(crate::layout::realise1(arr_1::<T>(&x), xlay, T::of(-9.0e9))) };
+    let interp = match build1::<T>(xo, crate::layout::realise(arr_d::<T>(&shape, &data), dlay, T::of(-3.5e5)), dd, &Strat1::Linear { extrapolate }) {
         Some(Ok(i)) => i,
         Some(Err(e)) => fail!("build-failed", "valid input rejected: {e}"),
         None => unreachable!(),
